@@ -209,7 +209,7 @@ func (f *Facts) funcTargets(v ssa.Value) (out []*ssa.Function, ok bool) {
 		seen[v] = true
 		switch x := v.(type) {
 		case *ssa.Function:
-			out = append(out, x)
+			out = append(out, canon(x))
 		case *ssa.MakeClosure:
 			out = append(out, x.Fn.(*ssa.Function))
 		case *ssa.Parameter:
@@ -1334,7 +1334,7 @@ func (f *Facts) buildCallSites() {
 			for _, in := range b.Instrs {
 				var callee *ssa.Function
 				if c, ok := in.(ssa.CallInstruction); ok {
-					if g := c.Common().StaticCallee(); g != nil {
+					if g := calleeOf(c); g != nil {
 						if _, isClosure := c.Common().Value.(*ssa.MakeClosure); !isClosure {
 							callee = g
 							f.sitesOf[g] = append(f.sitesOf[g], c)
@@ -1558,7 +1558,7 @@ func (f *Facts) fnTok(fn *ssa.Function) string {
 		root = root.Parent()
 	}
 	if f.ambigName[root.Name()] < 2 {
-		return fn.Name()
+		return f.w.NameOf(fn)
 	}
 	q := ""
 	if recv := root.Signature.Recv(); recv != nil {
@@ -1568,7 +1568,7 @@ func (f *Facts) fnTok(fn *ssa.Function) string {
 	} else if root.Pkg != nil {
 		q = shortPkg(root.Pkg.Pkg.Path())
 	}
-	return q + "__" + fn.Name()
+	return q + "__" + f.w.NameOf(fn)
 }
 
 // callSummaryAtoms: the atoms that hold when the module function called by `call` succeeded (nil error / true) or
